@@ -380,6 +380,151 @@ def run(report, p):
                             bad = norm(a)
             r6.check(bad is None, f, call, f"`{norm(call)[:60]}` runs on the main thread (reached from the group's result callback) on `{bad}`, which the checker thread filled from the server's answer: a malformed tag raises there and changes the command's exit code", construct=f"main-thread parse of server data: {norm(call)[:60]}")
 
+    # ------------------------------------------------------------------ R20.12
+    r12 = report.rule(
+        "R20.12",
+        "what the main thread reads may still be unset: a field of the checker that starts as None and is filled by the thread (the answer may come late or never: the join is "
+        "bounded) is compared, dereferenced or computed with on the main-thread side only under a test of THAT field - otherwise a slow or silent server turns a successful "
+        "command into a TypeError / AttributeError traceback with exit code 1",
+        1,
+    )
+    from .common import atomic_deps as _atomic_deps
+
+    none_fields = set()
+    for uc in ucs:
+        init = p.classes[uc].methods.get("__init__")
+        if init is None:
+            continue
+        for n in walk_no_nested(init.node):
+            if isinstance(n, ast.Assign) and isinstance(n.value, ast.Constant) and n.value.value is None:
+                for t in n.targets:
+                    if isinstance(t, ast.Attribute) and isinstance(t.value, ast.Name) and t.value.id == "self":
+                        none_fields.add(t.attr)
+    late = none_fields & thread_fields
+
+    def _implies_set(g_, field):
+        """property / method g_ of the checker yields a true value only when self.<field> is set: every return of something that can be true lies under a test of the field"""
+        gg = cfg_of(g_)
+        me_ = f"self.{field}"
+        rets_ = [n for n in walk_no_nested(g_.node) if isinstance(n, ast.Return) and n.value is not None and not (isinstance(n.value, ast.Constant) and not n.value.value)]
+        if not rets_:
+            return False
+        for rt in rets_:
+            names_ = {me_} | {t_.id for a_ in walk_no_nested(g_.node) for t_ in ([a_.target] if isinstance(a_, ast.NamedExpr) else (a_.targets if isinstance(a_, ast.Assign) else [])) if isinstance(t_, ast.Name) and norm(a_.value) == me_}
+            ok_ = False
+            for t_, l_ in gg.necessary_branches(gg.node_for(rt)):
+                for at_, l2 in _atomic_deps(t_.ast, l_):
+                    if (at_ in names_ and l2 == "T") or (any(at_ == f"{x_} is None" for x_ in names_) and l2 == "F"):
+                        ok_ = True
+            if not ok_ and isinstance(rt.value, ast.BoolOp) and isinstance(rt.value.op, ast.And):
+                for at_, l2 in _atomic_deps(rt.value.values[0], "T"):
+                    if (at_ in names_ and l2 == "T") or (any(at_ == f"{x_} is None" for x_ in names_) and l2 == "F"):
+                        ok_ = True
+            if not ok_:
+                return False
+        return True
+
+    def _read_sites_guarded(f_, field):
+        """f_ (a property / method of the checker that uses the field unguarded) is itself only read where another member of the checker that implies the field is set was tested"""
+        guards_ = {m_.name for uc_ in ucs for m_ in p.classes[uc_].methods.values() if m_ is not f_ and _implies_set(m_, field)}
+        if not guards_:
+            return False
+        sites_ = []
+        for q_ in list(main_reach) + [cb.qual for cb in callbacks]:
+            h_ = p.funcs.get(q_)
+            if h_ is None or h_ is f_:
+                continue
+            for n_ in walk_no_nested(h_.node):
+                if isinstance(n_, ast.Attribute) and n_.attr == f_.name and isinstance(n_.ctx, ast.Load):
+                    sites_.append((h_, n_))
+        if not sites_:
+            return False
+        for h_, n_ in sites_:
+            gh = cfg_of(h_)
+            st_ = n_
+            while st_ is not None and not isinstance(st_, ast.stmt):
+                st_ = parent(st_)
+            ok_ = False
+            for t_, l_ in gh.necessary_branches(gh.node_for(st_)):
+                for at_, l2 in _atomic_deps(t_.ast, l_):
+                    if l2 == "T" and at_.split(".")[-1] in guards_ and norm(n_.value) == at_.rsplit(".", 1)[0]:
+                        ok_ = True
+            if not ok_:
+                return False
+        return True
+
+    for fq in sorted(main_reach):
+        f = p.funcs[fq]
+        if f.cls not in ucs:
+            continue
+        gm = cfg_of(f)
+        # the field itself and locals that hold a copy of it (`x = self.f`, `(x := self.f)`)
+        subjects = []
+        for n in walk_no_nested(f.node):
+            if isinstance(n, ast.Attribute) and isinstance(n.value, ast.Name) and n.value.id == "self" and n.attr in late and isinstance(n.ctx, ast.Load):
+                r12.instance(f, n, f"{f.name}: read of self.{n.attr}")
+                subjects.append((n, f"self.{n.attr}", n.attr))
+        aliases = {}
+        for a_ in walk_no_nested(f.node):
+            tgt_ = a_.target if isinstance(a_, ast.NamedExpr) else (a_.targets[0] if isinstance(a_, ast.Assign) and len(a_.targets) == 1 else None)
+            if isinstance(tgt_, ast.Name) and isinstance(getattr(a_, "value", None), ast.Attribute) and isinstance(a_.value.value, ast.Name) and a_.value.value.id == "self" and a_.value.attr in late:
+                aliases[tgt_.id] = a_.value.attr
+        for n in walk_no_nested(f.node):
+            if isinstance(n, ast.Name) and n.id in aliases and isinstance(n.ctx, ast.Load):
+                subjects.append((n, n.id, aliases[n.id]))
+        for n, me, field in subjects:
+            par = parent(n)
+            strict = None
+            if isinstance(par, ast.Compare) and any(isinstance(op_, (ast.Lt, ast.LtE, ast.Gt, ast.GtE, ast.In, ast.NotIn)) for op_ in par.ops):
+                strict = "ordered comparison"
+            elif isinstance(par, ast.Attribute) and par.value is n:
+                strict = f"attribute .{par.attr}"
+            elif isinstance(par, ast.Subscript) and par.value is n:
+                strict = "subscript"
+            elif isinstance(par, (ast.BinOp, ast.UnaryOp)) and not isinstance(getattr(par, "op", None), ast.Not):
+                strict = "arithmetic"
+            elif isinstance(par, ast.Call) and par.func is n:
+                strict = "call"
+            if strict is None:
+                continue
+            r12.instance(f, n, f"{f.name}: {me} ({strict})")
+            guarded = False
+
+            def _is_guard(at_, l2):
+                return (at_ == me and l2 == "T") or (at_ == f"{me} is None" and l2 == "F")
+
+            # short-circuit inside the expression: `x and x > y`, `x is not None and ...`, `y if x else z`
+            x, up = n, parent(n)
+            while up is not None and not isinstance(up, ast.stmt):
+                if isinstance(up, ast.BoolOp) and isinstance(up.op, ast.And):
+                    idx = next((i_ for i_, v_ in enumerate(up.values) if any(y is x for y in ast.walk(v_))), None)
+                    for v_ in up.values[: idx or 0]:
+                        if any(_is_guard(a_, l_) for a_, l_ in _atomic_deps(v_, "T")):
+                            guarded = True
+                if isinstance(up, ast.IfExp) and any(y is x for y in ast.walk(up.body)):
+                    if any(_is_guard(a_, l_) for a_, l_ in _atomic_deps(up.test, "T")):
+                        guarded = True
+                x, up = up, parent(up)
+            st = n
+            while st is not None and not isinstance(st, ast.stmt):
+                st = parent(st)
+            try:
+                node_ = gm.node_for(st) if st is not None else None
+            except Exception:
+                node_ = None
+            if node_ is not None:
+                for t_, l_ in gm.necessary_branches(node_):
+                    if any(_is_guard(a_, l2) for a_, l2 in _atomic_deps(t_.ast, l_)):
+                        guarded = True
+                    # `if not (x := self.f): return`: the test of the field IS the test of the copy made in it
+                    if me in aliases and any(isinstance(w_, ast.NamedExpr) and isinstance(w_.target, ast.Name) and w_.target.id == me for w_ in ast.walk(t_.ast)):
+                        if any((a_ == f"self.{field}" and l2 == "T") or (a_ == f"self.{field} is None" and l2 == "F") for a_, l2 in _atomic_deps(t_.ast, l_)):
+                            guarded = True
+            if not guarded and f.name != "needs_update" and _read_sites_guarded(f, field):
+                guarded = True
+            r12.check(guarded, f, n, f"`{norm(par)[:70]}` in {f.name} runs on the main thread (the result callback reads it) and uses `{me}` ({strict}) without a test of it: self.{field} is None until the checker thread has its answer, and the join gives up after its time-out - with a server that answers late or never the expression raises TypeError and the finished command exits 1 with a traceback", construct=f"{f.name}: self.{field} used unguarded ({strict})")
+    r12.check(True, None, None, "")
+
     # ------------------------------------------------------------------ R20.5
     r5 = report.rule("R20.5", "both CLI groups register an identical result callback and create the checker at import without joining", 2)
     dumps = {}
